@@ -20,6 +20,7 @@ func init() {
 func c18(c *Ctx) {
 	p, R := c.Node(), c.R
 	R.Trust("go/types + go/ssa", "context cancellation and channel semantics", "a Runnable returns after its context is cancelled (cooperative)")
+	loopVarRule(c, p, "C18.loopvar", pkgSup)
 	R.Assumption("thread interleavings of the supervisor are not explored; rules check that the code implements the protocol's steps")
 	m := func(recv, name string) *ssa.Function {
 		return must(p.Method(pkgSup, recv, name), "supervisor.("+recv+")."+name)
@@ -270,6 +271,7 @@ func c18(c *Ctx) {
 	R.Floor("C18.restart-gate", ngate, 1)
 	// want only for DEAD/CANCELED; ready only for DONE/CANCELED/DEAD: check via the If conditions that dominate the constant stores
 	c18mapGate(c, gc, "want", []string{DEAD, CANCELED})
+	c18ready(c, gc, []string{DONE, CANCELED, DEAD})
 	// reset() is called only on nodes of `can`
 	for _, s := range callsTo(p, reset) {
 		if s.Fn == gc {
@@ -296,7 +298,7 @@ func c18(c *Ctx) {
 		}
 	}
 	eachInstr(gc, func(i ssa.Instruction) {
-		if ph, ok := i.(*ssa.Phi); ok && ph.Comment == "bo" {
+		if ph, ok := i.(*ssa.Phi); ok && facts.LocalName(ph.Parent(), ph.Comment) == "bo" {
 			good := true
 			for k, e := range ph.Edges {
 				pred := ph.Block().Preds[k]
@@ -388,6 +390,135 @@ func reachesCall(instr ssa.Instruction, fn *ssa.Function) bool {
 }
 
 // c18mapGate: every `m[...] = true` on the named local map is dominated by a state test against one of the listed constants.
+// c18ready: `ready[n]` may become true only when n itself is DONE/CANCELED/DEAD and `ready` is true
+// for every child of n (the recursive definition that makes "ready" a statement about the whole
+// subtree: a grandchild still running keeps its ancestors from being reset and started again).
+// The value stored is expanded into the disjunction of control paths that make it true; every
+// disjunct must (a) carry a state fact of the accepted set and (b) leave a loop over n.children by
+// exhaustion, where every completed iteration of that loop has the fact ready[child.dn()].
+func c18ready(c *Ctx, fn *ssa.Function, states []string) {
+	p, R := c.Node(), c.R
+	loops := facts.LoopsOf(fn)
+	n := 0
+	eachInstr(fn, func(i ssa.Instruction) {
+		mu, ok := i.(*ssa.MapUpdate)
+		if !ok || facts.Term(mu.Map) != "map:ready" {
+			return
+		}
+		n++
+		var bad []string
+		disj := facts.DNF(mu.Value, true)
+		if len(disj) == 0 {
+			bad = append(bad, "stored value can never be true")
+		}
+		for k, conj := range disj {
+			okState, okKids := false, false
+			for _, f := range conj {
+				a := f.Atom
+				for _, st := range states {
+					if strings.HasPrefix(a, st+" == ") && strings.HasSuffix(a, ".state") || strings.HasSuffix(a, ".state == "+st) {
+						okState = true
+					}
+				}
+				// the state test factored into a predicate method that is true only for those states
+				if cl, isCall := f.Cond.(*ssa.Call); isCall && f.Pol {
+					if callee := cl.Call.StaticCallee(); callee != nil && c18statePred(callee, states, 0) {
+						okState = true
+					}
+				}
+			}
+			// (b) some fact of the disjunct is the exhaustion exit of a loop over .children whose
+			// iterations all established ready[child]
+			for _, f := range conj {
+				if f.If == nil {
+					continue
+				}
+				for _, l := range loops {
+					if l.Header != f.If {
+						continue
+					}
+					iter := facts.Atoms(l.IterationFacts(nil))
+					for _, a := range iter {
+						if strings.HasPrefix(a, "map:ready[(*N/supervisor.node).dn(") && strings.Contains(a, ".children") {
+							okKids = true
+						}
+					}
+				}
+			}
+			if !okState {
+				bad = append(bad, fmt.Sprintf("way %d to true has no DONE/CANCELED/DEAD state fact: %s", k, facts.Join(conj)))
+			}
+			if !okKids {
+				bad = append(bad, fmt.Sprintf("way %d to true does not require ready[child] for every child (only the direct children's own state, or nothing, is consulted): %s", k, facts.Join(conj)))
+			}
+		}
+		R.Check("C18.restart-gate", R.Key("C18.restart-gate", shortFn(fn), "mapupdate:ready"), c.rel(p.Pos(mu.Pos())), "a node is ready only if it is DONE/CANCELED/DEAD and every child is ready (recursively: no descendant is still running)", len(bad) == 0, strings.Join(bad, "; "))
+	})
+	R.Floor("C18.restart-gate.ready", n, 1)
+}
+
+// c18statePred: fn returns a bool that is true only when a value derived from its receiver equals
+// one of the given state constants (directly, or through another such predicate).
+func c18statePred(fn *ssa.Function, states []string, depth int) bool {
+	if fn == nil || len(fn.Blocks) == 0 || depth > 3 || fn.Signature.Results().Len() != 1 {
+		return false
+	}
+	isState := func(a string) bool {
+		for _, st := range states {
+			if strings.HasPrefix(a, st+" == ") || strings.HasSuffix(a, " == "+st) {
+				return true
+			}
+		}
+		return false
+	}
+	stateEdges, _ := edgesWhere(fn, isState)
+	guarded := func(b *ssa.BasicBlock, fs []facts.Fact) bool {
+		if len(stateEdges) > 0 && facts.PassesAny(b, nil, stateEdges...) {
+			return true
+		}
+		for _, f := range fs {
+			if isState(f.Atom) {
+				return true
+			}
+			if cl, isCall := f.Cond.(*ssa.Call); isCall && f.Pol && c18statePred(cl.Call.StaticCallee(), states, depth+1) {
+				return true
+			}
+		}
+		return false
+	}
+	n := 0
+	okAll := true
+	eachInstr(fn, func(i ssa.Instruction) {
+		r, ok := i.(*ssa.Return)
+		if !ok {
+			return
+		}
+		switch v := r.Results[0].(type) {
+		case *ssa.Const:
+			if v.Value == nil || !constant.BoolVal(v.Value) {
+				return
+			}
+			n++
+			if !guarded(r.Block(), facts.At(r, nil)) {
+				okAll = false
+			}
+		case *ssa.Call:
+			n++
+			if !c18statePred(v.Call.StaticCallee(), states, depth+1) && !guarded(r.Block(), facts.At(r, nil)) {
+				okAll = false
+			}
+		default:
+			for _, w := range facts.DNF(v, true) {
+				n++
+				if !guarded(r.Block(), append(append([]facts.Fact{}, w...), facts.At(r, nil)...)) {
+					okAll = false
+				}
+			}
+		}
+	})
+	return okAll && n > 0
+}
+
 func c18mapGate(c *Ctx, fn *ssa.Function, name string, states []string) {
 	p, R := c.Node(), c.R
 	n := 0
